@@ -134,7 +134,9 @@ example : (handleData { plugins := [[3]], onComplete := fun _ _ => .raise [] (so
 
 end Px.First
 
-namespace Px.Parser
+namespace Px.ParseFuel
+
+open Px.Parser
 
 /-- **C06 parser totality.**  `HttpParser.parse` is a total function in the model; moreover its
 fuel (the model's stand-in for "the `while` loop ends") is never what ends the loop: for every
@@ -168,7 +170,7 @@ theorem C06_former_hangs_terminate :
 example : okAnd (parseAll {} (init .request) [b "POST / HTTP/1.1\r\nContent-Length: 5\r\n\r\nhe", b "l"])
     (fun p => p.state == .rcvingBody && p.body == some (b "hel")) = true := by decide +kernel
 
-end Px.Parser
+end Px.ParseFuel
 
 namespace Px.Wf
 
